@@ -155,6 +155,8 @@ def _record_fail(state, case, msg):
 def task_main(mod, sub, task, treedir, workdir, outpath):
     """Runs in a forked child; writes its result as JSON to outpath."""
     res = {"task": task, "violation": None, "harness_error": None}
+    import warnings
+    warnings.simplefilter("ignore")      # numpy RuntimeWarnings from the code under test are not verdicts
     state = TaskState()
     tier = task["tier"]
     open_keys = task["open_keys"]
